@@ -631,6 +631,69 @@ def deleted_targets(res, rng, n):
             break
 
 
+def loaded_embedded_edits(res, rng, n):
+    """(1) Exposed controllers mapped onto controllers that the embedded module has but does not store as CVALs (the Sampler's
+    record fields): type and value survive.  (2) A MetaModule that came from a FILE: every controller of its embedded modules
+    is edited, one at a time; the exposed controllers' stored values stay as they are (nothing links a loaded MetaModule to
+    its embedded modules), the edits are what the next save carries."""
+    import rv.api as api
+    for k in range(n):
+        inner = api.Project()
+        smp = inner.new_module(api.m.Sampler)
+        amp = inner.new_module(api.m.Amplifier)
+        mm = api.m.MetaModule(project=inner)
+        names_s, names_a = list(type(smp).controllers), list(type(amp).controllers)
+        picks = [(smp, "vibrato_type"), (smp, "vibrato_depth"), (amp, "balance"), (amp, "volume"), (smp, "volume_fadeout"), (amp, "dc_offset")]
+        rng.shuffle(picks)
+        mm.user_defined_controllers = len(picks)
+        smp.vibrato_type, smp.vibrato_depth, smp.volume_fadeout = smp.VibratoType.saw, 77, 1234
+        amp.balance, amp.volume, amp.dc_offset = -77, 300, 5
+        for i, (mod, cname) in enumerate(picks):
+            mm.mappings.values[i] = mm.Mapping((mod.index, (names_s if mod is smp else names_a).index(cname)))
+        mm.update_user_defined_controllers()
+        want = [(repr(getattr(mm, f"user_defined_{i + 1}")), mm.get_raw(f"user_defined_{i + 1}")) for i in range(len(picks))]
+        case = {"family": "loaded-embedded-edits", "slots": [p_[1] for p_ in picks]}
+        res.count("loaded_embedded_edit_cases")
+        try:
+            loaded = mm.clone()
+        except Exception as e:
+            res.violation(f"C15:clone-raises:{workload.exc_key(e)}", f"MetaModule exposing Sampler record controllers: {e!r}", case)
+            continue
+        got = [(repr(getattr(loaded, f"user_defined_{i + 1}")), loaded.get_raw(f"user_defined_{i + 1}")) for i in range(len(picks))]
+        if got != want:
+            i = next(j for j in range(len(picks)) if got[j] != want[j])
+            res.violation("C15:clone:/controllers/user_defined_N:unattached-target", f"exposed controller {i + 1} stands for {type(picks[i][0]).__name__}.{picks[i][1]}: it held {want[i]}, "
+                                                                                    f"after save/load {got[i]}", case)
+            continue
+        # (2) edits inside the LOADED MetaModule's project
+        l_amp = loaded.project.modules[amp.index]
+        edits = {"volume": 100, "balance": 17, "mute": True, "inverse": True, "stereo_width": 55, "absolute": True, "fine_volume": 9, "gain": 3, "bipolar_dc_offset": -3}
+        before_slots = [loaded.get_raw(f"user_defined_{i + 1}") for i in range(len(picks))]
+        applied = {}
+        for cname, v in edits.items():
+            if cname in type(l_amp).controllers:
+                try:
+                    setattr(l_amp, cname, v)
+                    applied[cname] = v
+                except Exception as e:
+                    res.violation(f"C15:loaded-embedded-edit-raises:{type(e).__name__}", f"Amplifier.{cname} = {v} inside a loaded MetaModule raised {e!r}", case)
+                    break
+        if [loaded.get_raw(f"user_defined_{i + 1}") for i in range(len(picks))] != before_slots:
+            res.violation("C15:loaded-embedded-edit:slots-changed", f"editing controllers of a module inside a LOADED MetaModule changed the stored values of its exposed controllers: "
+                                                                    f"{before_slots} -> {[loaded.get_raw(f'user_defined_{i + 1}') for i in range(len(picks))]}", case)
+            continue
+        bad = {c_: (v, getattr(l_amp, c_)) for c_, v in applied.items() if getattr(l_amp, c_) != v}
+        if bad:
+            res.violation("C15:loaded-embedded-edit:bounced", f"controllers edited inside a loaded MetaModule do not hold what was assigned: {bad}", case)
+            continue
+        again = loaded.clone()
+        a_amp = again.project.modules[amp.index]
+        bad = {c_: (v, getattr(a_amp, c_)) for c_, v in applied.items() if getattr(a_amp, c_) != v}
+        if bad or [again.get_raw(f"user_defined_{i + 1}") for i in range(len(picks))] != before_slots:
+            res.violation("C15:loaded-embedded-edit:not-saved", f"after save/load: embedded edits {bad}, exposed values {[again.get_raw(f'user_defined_{i + 1}') for i in range(len(picks))]} "
+                                                                f"(were {before_slots})", case)
+
+
 def run_shard(spec_, res):
     monitors.install()
     for i in range(spec_["start"], spec_["start"] + spec_["count"]):
@@ -649,6 +712,7 @@ def run_shard(spec_, res):
     constructor_count(res, _random.Random(spec_["seed"] * 37 + spec_["shard"]), 12 if spec_["tier"] == "quick" else 60)
     application_variants(res, _random.Random(spec_["seed"] * 41 + spec_["shard"]), 12 if spec_["tier"] == "quick" else 100)
     deleted_targets(res, _random.Random(spec_["seed"] * 43 + spec_["shard"]), 8 if spec_["tier"] == "quick" else 60)
+    loaded_embedded_edits(res, _random.Random(spec_["seed"] * 47 + spec_["shard"]), 6 if spec_["tier"] == "quick" else 50)
     for name, msg in monitors.take_failures():
         res.violation(f"C15:ambient:{name}", msg, {"monitor": name})
     res.exhaustive = True
